@@ -135,7 +135,7 @@ def pretty_tabs(tabs):
 
 # ---------------------------------------------------------------- isolation re-run
 
-def confirm_all(binp, prop, module, jobs, scd, key, pid, extra=(), tag="c", attempt=1, src=None):
+def confirm_all(binp, prop, module, jobs, scd, key, pid, extra=(), tag="c", attempt=1, src=None, prefix="MF"):
     """jobs: list of (mm, ev).  Each disagreeing history is re-run alone (fresh process, fresh engine,
     up to the disagreeing statement); all re-runs are validated by ONE TLC run.  `key(mm, ev)` is what
     must show again (same statement, same fault position / session, same `what`).  Returns per job
@@ -160,7 +160,7 @@ def confirm_all(binp, prop, module, jobs, scd, key, pid, extra=(), tag="c", atte
                     n += 1
                     owner[n] = k
                     f.write(line)
-    mms, _ = validate(module, allp, per_chunk=max(1, (len(jobs) + 3) // 4), procs=4)
+    mms, _ = validate(module, allp, per_chunk=max(1, (len(jobs) + 3) // 4), procs=4, prefix=prefix)
     evs = load_events(allp)
     res = [None] * len(jobs)
     for m in mms:
@@ -174,17 +174,17 @@ def confirm_all(binp, prop, module, jobs, scd, key, pid, extra=(), tag="c", atte
             res[k] = keep
     missing = [k for k in range(len(jobs)) if res[k] is None]
     if missing and attempt < 3:
-        again = confirm_all(binp, prop, module, [jobs[k] for k in missing], scd, key, pid, extra, "%s%d" % (tag, attempt), attempt + 1, src)
+        again = confirm_all(binp, prop, module, [jobs[k] for k in missing], scd, key, pid, extra, "%s%d" % (tag, attempt), attempt + 1, src, prefix)
         for k, r in zip(missing, again):
             res[k] = r
     return res
 
 
 def judge_trace(pid, binp, prop, module, trace, verdict, scd, signature, key, detail, per_chunk=5, procs=5, max_confirm=2, tag="c",
-                extra=(), src=None, accept=lambda m, ev: True):
+                extra=(), src=None, accept=lambda m, ev: True, prefix="MF"):
     """Validate a trace; every disagreement (that `accept`s) is grouped by signature, the first
     `max_confirm` of each signature are re-run in isolation and only then handed to the verdict."""
-    mms, states = validate(module, trace, per_chunk=per_chunk, procs=procs)
+    mms, states = validate(module, trace, per_chunk=per_chunk, procs=procs, prefix=prefix)
     evs = load_events(trace)
     by_sig, skipped = {}, 0
     for m in mms:
@@ -198,7 +198,7 @@ def judge_trace(pid, binp, prop, module, trace, verdict, scd, signature, key, de
         for sig, items in by_sig.items():
             if rank < len(items) and (rank == 0 or len(jobs) < 8):
                 jobs.append((sig,) + items[rank])
-    kept = confirm_all(binp, prop, module, [(m, ev) for _, m, ev in jobs], scd, key, pid, extra, tag, src=src)
+    kept = confirm_all(binp, prop, module, [(m, ev) for _, m, ev in jobs], scd, key, pid, extra, tag, src=src, prefix=prefix)
     confirmed = 0
     for (sig, m, ev), keep in zip(jobs, kept):
         if not keep:
@@ -216,8 +216,9 @@ class Witnesses(threading.Thread):
     """Executes the recorded witness history of every finding of pid (-mode exec) and has TLC judge
     all of them in one run, in the background; finish() hands the disagreements to the verdict."""
 
-    def __init__(self, binp, pid, prop, module, scd, signature, detail, extra=(), accept=lambda m, ev: True):
+    def __init__(self, binp, pid, prop, module, scd, signature, detail, extra=(), accept=lambda m, ev: True, prefix="MF", prepare=None):
         super().__init__()
+        self.prefix, self.prepare = prefix, prepare
         self.binp, self.pid, self.prop, self.module, self.scd = binp, pid, prop, module, scd
         self.signature, self.detail, self.extra, self.accept = signature, detail, list(extra), accept
         self.exc, self.items = None, []
@@ -238,8 +239,10 @@ class Witnesses(threading.Thread):
                             n += 1
                             owner[n] = f
                             out.write(line)
-            mms, _ = validate(self.module, allp, per_chunk=1000, procs=1)
+            mms, _ = validate(self.module, allp, per_chunk=1000, procs=1, prefix=self.prefix)
             evs = load_events(allp)
+            if self.prepare:
+                self.prepare(evs)
             hits = {f["id"]: 0 for f in finds}
             for m in mms:
                 ev = evs[m["line"]]
@@ -298,7 +301,7 @@ class MC(threading.Thread):
         return self.results
 
 
-def replay(pid, prop, module, path, signature, detail, extra=(), accept=lambda m, ev: True):
+def replay(pid, prop, module, path, signature, detail, extra=(), accept=lambda m, ev: True, prefix="MF", prepare=None):
     """Re-run a recorded case file on the current tree and re-validate it."""
     binp = lib.build("dml2")
     if path.endswith(".json"):
@@ -306,8 +309,10 @@ def replay(pid, prop, module, path, signature, detail, extra=(), accept=lambda m
     with lib.Scratch() as scd:
         out = os.path.join(scd, "replay.ndjson")
         lib.run_report([binp, "-prop", prop, "-mode", "exec", "-in", path, "-out", out] + list(extra))
-        mms, _ = validate(module, out, per_chunk=1000, procs=1)
+        mms, _ = validate(module, out, per_chunk=1000, procs=1, prefix=prefix)
         evs = load_events(out)
+        if prepare:
+            prepare(evs)
         bad = 0
         for m in mms:
             ev = evs[m["line"]]
